@@ -253,6 +253,20 @@ def r14_2_index_kinds(ctx, rule: str = 'R14.2', rule_enum: str = 'R06.1', rule_s
                                          construct=f"{fn}::{base}[{ast.unparse(e)}]"))
         if n_checked == 0:
             obs.append(inconclusive(rule, f"{f.name}: uses of the pair indices found", f.loc(), construct=fn))
+        # every pair is evaluated: no conditional skip / early exit inside a loop over a pair list
+        for lp in loops:
+            skips = [x for st in lp.body for x in ast.walk(st) if isinstance(x, (ast.Continue, ast.Break))]
+            nested_calls = [x for st in lp.body if isinstance(st, (ast.If, ast.While, ast.Try)) for x in ast.walk(st)
+                            if isinstance(x, ast.Call) and any(isinstance(a, ast.Subscript) and isinstance(a.value, ast.Name) and
+                                                                a.value.id == sc.trains for a in x.args)]
+            t = (f"{f.name}: the loop over the pair list evaluates every pair unconditionally (no `continue`/`break`, the pair "
+                 f"function is not called under a condition)")
+            if not skips and not nested_calls:
+                obs.append(ok(rule_enum, t, f.loc(lp), construct=f"{fn}::pairloop::{lp.lineno - f.node.lineno}"))
+            else:
+                node = (skips + nested_calls)[0]
+                obs.append(violation(rule_enum, t, f.loc(node), key=f"{fn}::pairloop-conditional",
+                                     detail=f"`{ast.unparse(lp.body[0])[:100]}`: some pairs do not contribute their value/multiplicity"))
         # R14.3: normalisation by a train count uses the selection size
         for n in ast.walk(f.node):
             div = None
